@@ -87,7 +87,7 @@ def check(ctx):
         from .clone_common import clone_provenance
         # the shared clone rule reports every unfaithfulness of the copy; C02 only depends on the links and the hierarchy of
         # the copy, not on the order of siblings
-        clone_provenance(ctx, _Only(o, drop=("the order of siblings",)))
+        clone_provenance(ctx, _Only(o, drop=("the order of siblings", "(getter all_children)", "(getter all_parents)")))
     ctx.guarded(o, clone_links)
 
     o = ctx.ob('clone_keeps_min_start_and_dates', 'R9',
